@@ -39,6 +39,8 @@ type mcase struct {
 	Own       string   // kind of the victim's request: ledger | sub | virtual | update
 	OwnHonest bool     // control: the request reaches the real M, which answers honestly (nothing is injected)
 	Pts       []string // explicit list of history points
+	// Envs, if set, builds complete envelopes (several messages, other senders than Sender) instead of Build
+	Envs func(sc *mScene) []*wire.Envelope
 }
 
 // lockedAt / subsAt: what the history points provide.
@@ -1304,6 +1306,7 @@ func allCases() []mcase {
 	out = append(out, hubCases()...)
 	out = append(out, hubTwoCases()...)
 	out = append(out, ownCases()...)
+	out = append(out, hubPairCases()...)
 	out = append(out, otherCases()...)
 	return out
 }
